@@ -80,7 +80,8 @@ CHECKS = {
         "snapshots incl. RandomState.get_state()) before/after every call on all exported stream strategies x managers; twin histories with "
         "extra queries (also with other training data / weights / fit_clf / utility_weight than the regular calls). The density window of "
         "StreamDensityBasedAL (window_, min_dist_, _calculate_ldf) is modelled (Core/Density.lean; C03dens: density_query_restores, step_aligned) "
-        "and compared bit-exactly after every call."
+        "and compared bit-exactly after every call; its kernel _calculate_ldf is also translated from the source on every run "
+        "(harness/translate/pydensity.py -> Gen/DensityGen.lean, proved equal to the model: calculate_ldf_eq; gen_step_aligned)."
         " Second tie (translation): harness/translate/pystream.py re-translates query_by_utility / query / update of every budget manager and both baseline strategies from the current Python source into Lean (Gen/StreamBM.lean) on every run; Lemmas/StreamGen.lean proves each translated method equal to the hand-written model for all inputs (19 bridging theorems), Props/StreamGen.lean transfers the property theorems to the translated managers (gen_* theorems via the simulation lemma Sim.run_chunked); the translated model is also executed bit-exactly against the real classes (skagendriver).",
         design="§4 C03",
         technique="Lean 4 proof (purity + induction over histories; theorems transferred to a model translated from the Python source on every run) + state-snapshot and bit-exact correspondence",
